@@ -294,12 +294,101 @@ Section ResolverP.
   Qed.
 End ResolverP.
 
-Lemma resolve_perm h reg specs specs' :
-  Permutation specs specs' -> NoDup specs -> resolve h reg specs = resolve h reg specs'.
-Proof. intros HP Hn. unfold resolve. rewrite (resolve_order_perm p_name p_prio reg _ _ HP Hn). reflexivity. Qed.
-Lemma aresolve_perm reg specs specs' :
-  Permutation specs specs' -> NoDup specs -> aresolve reg specs = aresolve reg specs'.
-Proof. intros HP Hn. unfold aresolve. rewrite (resolve_order_perm _ _ reg _ _ HP Hn). reflexivity. Qed.
+(* the resolver commutes with maps that keep identifier and priority *)
+Section ResolveMap.
+  Context {A B : Type} (g : A -> B) (nm : A -> option str) (pr : A -> Z) (nm' : B -> option str) (pr' : B -> Z).
+  Hypothesis nm_g : forall x, nm' (g x) = nm x.
+  Hypothesis pr_g : forall x, pr' (g x) = pr x.
+  Definition gx (x : A * str) : B * str := (g (fst x), snd x).
+
+  Lemma reg_lookup_map reg s : reg_lookup nm' (map g reg) s = option_map g (reg_lookup nm reg s).
+  Proof.
+    induction reg as [|p reg IH]; cbn; [reflexivity|]. rewrite IH.
+    destruct (reg_lookup nm reg s); cbn; [reflexivity|]. rewrite nm_g.
+    destruct (oname_eqb (nm p) s); reflexivity.
+  Qed.
+  Lemma resolve_all_map reg specs :
+    resolve_all nm' (map g reg) specs = option_map (map gx) (resolve_all nm reg specs).
+  Proof.
+    induction specs as [|s specs IH]; cbn; [reflexivity|]. rewrite reg_lookup_map, IH.
+    destruct (reg_lookup nm reg s); cbn; [|reflexivity]. destruct (resolve_all nm reg specs); reflexivity.
+  Qed.
+  Lemma info_leb_map x y : info_leb pr' (gx x) (gx y) = info_leb pr x y.
+  Proof. unfold info_leb, info_key, gx. cbn. rewrite !pr_g. reflexivity. Qed.
+  Lemma insert_map x l : insert (info_leb pr') (gx x) (map gx l) = map gx (insert (info_leb pr) x l).
+  Proof.
+    induction l as [|y l IH]; cbn; [reflexivity|]. rewrite info_leb_map.
+    destruct (info_leb pr x y); cbn; [reflexivity|]. rewrite IH. reflexivity.
+  Qed.
+  Lemma isort_map l : isort (info_leb pr') (map gx l) = map gx (isort (info_leb pr) l).
+  Proof. induction l as [|x l IH]; cbn; [reflexivity|]. rewrite IH. apply insert_map. Qed.
+  Lemma resolve_order_map reg specs :
+    resolve_order nm' pr' (map g reg) specs = option_map (map g) (resolve_order nm pr reg specs).
+  Proof.
+    unfold resolve_order. rewrite resolve_all_map. destruct (resolve_all nm reg specs) as [l|]; cbn; [|reflexivity].
+    rewrite isort_map, !map_map. reflexivity.
+  Qed.
+End ResolveMap.
+
+Lemma reg_lookup_in {A} (nm : A -> option str) reg s x : reg_lookup nm reg s = Some x -> In x reg.
+Proof.
+  induction reg as [|r reg IH]; cbn; intros H; [discriminate|].
+  destruct (reg_lookup nm reg s) eqn:Er.
+  - right. apply IH. congruence.
+  - destruct (oname_eqb (nm r) s); [left; congruence | discriminate].
+Qed.
+Lemma resolve_all_in {A} (nm : A -> option str) reg specs l : resolve_all nm reg specs = Some l ->
+  forall x, In x l -> In (fst x) reg.
+Proof.
+  intros E x Hx. eapply reg_lookup_in. eapply resolve_all_lookup; eassumption.
+Qed.
+
+(* the table entry a spec denotes, as a pipeline: the registered object itself, or (for a callable /
+   file) a pipeline with the content of the definition *)
+Definition ent_ppl (e : str * rent ppl) : ppl :=
+  match snd e with
+  | RObj p => p
+  | RCall d => {| p_id := 0; p_items := d_items d; p_post := d_post d; p_fin := d_fin d; p_prio := d_prio d; p_name := d_name d |}
+  | RSeq ds => let d := seq_pick 0 ds in
+               {| p_id := 0; p_items := d_items d; p_post := d_post d; p_fin := d_fin d; p_prio := d_prio d; p_name := d_name d |}
+  end.
+Definition is_obj (e : str * rent ppl) : Prop := exists p, snd e = RObj p.
+Definition objs_only (t : list (str * rent ppl)) : Prop := forall e, In e t -> is_obj e.
+Lemma ent_ppl_prio e : p_prio (ent_ppl e) = ent_prio e.
+Proof. unfold ent_ppl, ent_prio. destruct (snd e); reflexivity. Qed.
+
+Lemma minst_objs h c l : (forall x, In x l -> is_obj (fst x)) ->
+  minst_all h c l = ((h, c), Ok (map (gx ent_ppl) l)).
+Proof.
+  induction l as [|es l IH]; intros H; [reflexivity|]. cbn [minst_all map].
+  destruct (H es (or_introl eq_refl)) as [p Hp]. rewrite Hp.
+  rewrite IH by (intros x Hx; apply H; right; exact Hx). cbn [fst snd obind].
+  unfold gx at 2, ent_ppl. rewrite Hp. reflexivity.
+Qed.
+
+(* on a table of registered objects the resolver is: look the specs up, order the entries by
+   (priority, spec), sum the objects *)
+Lemma resolve_objs h c t specs : objs_only t ->
+  resolve h c t specs =
+  match resolve_order tab_nm ent_prio t specs with
+  | None => ((h, c), SigmaErr E_NotFound)
+  | Some l => let hs := psum h (map ent_ppl l) in ((fst hs, c), snd hs)
+  end.
+Proof.
+  intros O. unfold resolve, resolve_order. destruct (resolve_all tab_nm t specs) as [l|] eqn:E; [|reflexivity].
+  rewrite minst_objs by (intros x Hx; apply O; eapply resolve_all_in; eassumption). cbn [fst snd].
+  rewrite (isort_map ent_ppl ent_prio p_prio ent_ppl_prio), !map_map. reflexivity.
+Qed.
+
+(* every order of naming the pipelines combines the same table entries in the same order ... *)
+Lemma resolve_entries_perm (t : list (str * rent ppl)) specs specs' :
+  Permutation specs specs' -> NoDup specs ->
+  resolve_order tab_nm ent_prio t specs = resolve_order tab_nm ent_prio t specs'.
+Proof. apply resolve_order_perm. Qed.
+(* ... and on registered objects that is the identical result: heap, pipeline, error *)
+Lemma resolve_perm h c t specs specs' : objs_only t ->
+  Permutation specs specs' -> NoDup specs -> resolve h c t specs = resolve h c t specs'.
+Proof. intros O HP Hn. rewrite !resolve_objs by exact O. rewrite (resolve_entries_perm t _ _ HP Hn). reflexivity. Qed.
 
 (* ------------------------------------------------------------------ ownership: mk / add *)
 Lemma memN_In u l : memN u l = true <-> In u l.
@@ -635,26 +724,27 @@ Lemma psum_eval h p l : psum h (p :: l) = eval h (ltree p l).
 Proof. unfold psum, ltree. rewrite <- psum_eval_gen. reflexivity. Qed.
 
 (* the resolver's result is the concatenation of the named pipelines in (priority, name) order *)
-Lemma resolve_flat h reg specs l h' s : wf_heap h -> (forall p, In p reg -> valid h p) ->
-  resolve_order p_name p_prio reg specs = Some l -> l <> [] ->
-  resolve h reg specs = (h', Ok s) ->
-  p_items s = flat_map p_items l /\ p_post s = flat_map p_post l /\ p_fin s = flat_map p_fin l /\
-  (forall k, lookup k (h_vars h' (p_id s)) = vars_lookup k (map (fun p => h_vars h (p_id p)) l)).
+Lemma resolve_flat h c t specs l h' c' s : wf_heap h -> objs_only t -> (forall e, In e t -> valid h (ent_ppl e)) ->
+  resolve_order tab_nm ent_prio t specs = Some l -> l <> [] ->
+  resolve h c t specs = ((h', c'), Ok s) ->
+  p_items s = flat_map p_items (map ent_ppl l) /\ p_post s = flat_map p_post (map ent_ppl l) /\
+  p_fin s = flat_map p_fin (map ent_ppl l) /\
+  (forall k, lookup k (h_vars h' (p_id s)) = vars_lookup k (map (fun p => h_vars h (p_id p)) (map ent_ppl l))).
 Proof.
-  intros W V E Hne H. unfold resolve in H. rewrite E in H. destruct l as [|p l]; [contradiction|].
-  rewrite psum_eval in H.
-  assert (Hl : leaves (ltree p l) = p :: l) by (unfold ltree; rewrite leaves_ltree; reflexivity).
-  destruct (eval_flat (ltree p l) h h' s W) as (A & B & C & D & _); [|exact H|].
-  - rewrite Hl. intros q Hq. apply V.
-    unfold resolve_order in E. destruct (resolve_all p_name reg specs) as [l0|] eqn:E0; [|discriminate].
-    inversion E as [E1]. assert (Hin : In q (map fst (isort (info_leb p_prio) l0))) by (rewrite E1; exact Hq).
-    apply in_map_iff in Hin. destruct Hin as (x & Hx & Hin). subst q.
-    apply (Permutation_in _ (isort_perm _ l0)) in Hin.
-    pose proof (resolve_all_lookup p_name reg specs l0 E0 x Hin) as Hlk.
-    clear - Hlk. induction reg as [|r reg IH]; cbn in Hlk; [discriminate|].
-    destruct (reg_lookup p_name reg (snd x)) eqn:Er.
-    + right. apply IH. congruence.
-    + destruct (oname_eqb (p_name r) (snd x)); [left; congruence | discriminate].
+  intros W O V E Hne H. rewrite resolve_objs in H by exact O. rewrite E in H. cbn zeta in H.
+  destruct (psum h (map ent_ppl l)) as [h1 r1] eqn:Ep. cbn [fst snd] in H. inversion H; subst; clear H.
+  destruct l as [|e l]; [contradiction|]. cbn [map] in *.
+  rewrite psum_eval in Ep.
+  assert (Hl : leaves (ltree (ent_ppl e) (map ent_ppl l)) = ent_ppl e :: map ent_ppl l)
+    by (unfold ltree; rewrite leaves_ltree; reflexivity).
+  destruct (eval_flat (ltree (ent_ppl e) (map ent_ppl l)) h h' s W) as (A & B & C & D & _); [|exact Ep|].
+  - rewrite Hl. intros q Hq.
+    assert (Hin : In q (map ent_ppl (e :: l))) by exact Hq.
+    apply in_map_iff in Hin. destruct Hin as (x & <- & Hin). apply V.
+    unfold resolve_order in E. destruct (resolve_all tab_nm t specs) as [l0|] eqn:E0; [|discriminate].
+    inversion E as [E1]. assert (Hx : In x (map fst (isort (info_leb ent_prio) l0))) by (rewrite E1; exact Hin).
+    apply in_map_iff in Hx. destruct Hx as (y & <- & Hy).
+    apply (Permutation_in _ (isort_perm _ l0)) in Hy. eapply resolve_all_in; eassumption.
   - rewrite Hl in *. repeat split; assumption.
 Qed.
 
@@ -778,4 +868,92 @@ Proof.
   split; [reflexivity|]. split; [reflexivity|].
   split; [intros u Hu; cbn in Hu; destruct Hu as [<-|[]]; reflexivity|]. split; [reflexivity|].
   intros u Hu. cbn in Hu. destruct Hu as [<-|[]]. reflexivity.
+Qed.
+
+(* ------------------------------------------------------------------ tables with callables / files *)
+Definition strip_item (i : pitem) := (i_id i, i_kind i, i_cond i).
+Definition strip_post (q : ppost) := (q_id q, q_kind q, q_cond q).
+Definition strip_fin (x : pfin) := (f_sep x, f_pre x, f_suf x).
+(* p is a pipeline with the content of definition d (object identities apart) *)
+Definition same_content (p : ppl) (d : pdef) : Prop :=
+  map strip_item (p_items p) = map strip_item (d_items d) /\
+  map strip_post (p_post p) = map strip_post (d_post d) /\
+  map strip_fin (p_fin p) = map strip_fin (d_fin d) /\ p_prio p = d_prio d /\ p_name p = d_name d.
+Definition inst_of (e : str * rent ppl) (p : ppl) : Prop :=
+  match snd e with
+  | RObj q => p = q
+  | RCall d => same_content p d
+  | RSeq ds => exists c, same_content p (seq_pick c ds)
+  end.
+Definition no_seq (t : list (str * rent ppl)) : Prop := forall e ds, In e t -> snd e <> RSeq ds.
+
+Lemma strip_renum_items l : forall u, map strip_item (renum_items u l) = map strip_item l.
+Proof. induction l as [|i l IH]; intros u; cbn; [reflexivity|]. rewrite IH. reflexivity. Qed.
+Lemma strip_renum_post l : forall u, map strip_post (renum_post u l) = map strip_post l.
+Proof. induction l as [|i l IH]; intros u; cbn; [reflexivity|]. rewrite IH. reflexivity. Qed.
+Lemma strip_renum_fin l : forall u, map strip_fin (renum_fin u l) = map strip_fin l.
+Proof. induction l as [|i l IH]; intros u; cbn; [reflexivity|]. rewrite IH. reflexivity. Qed.
+
+Lemma mk_def_content h c d h' p : mk_def h (renum c d) = (h', Ok p) -> same_content p d.
+Proof.
+  unfold mk_def. intros E. apply mk_ok in E. destruct E as (_ & -> & _).
+  unfold same_content, renum. cbn [p_items p_post p_fin p_prio p_name d_items d_post d_fin d_prio d_name].
+  rewrite strip_renum_items, strip_renum_post, strip_renum_fin. repeat split.
+Qed.
+
+Definition info_rel (es : (str * rent ppl) * str) (ps : ppl * str) : Prop :=
+  inst_of (fst es) (fst ps) /\ snd ps = snd es /\ p_prio (fst ps) = ent_prio (fst es).
+
+Lemma minst_rel l : forall h c hc infos,
+  (forall x ds, In x l -> snd (fst x) <> RSeq ds) ->
+  minst_all h c l = (hc, Ok infos) -> Forall2 info_rel l infos.
+Proof.
+  induction l as [|es l IH]; intros h c hc infos NS E; cbn [minst_all] in E.
+  - inversion E; subst. constructor.
+  - assert (NS' : forall x ds, In x l -> snd (fst x) <> RSeq ds) by (intros x ds Hx; apply NS; right; exact Hx).
+    destruct (snd (fst es)) as [q|d|ds] eqn:Ee.
+    + destruct (minst_all h c l) as [hc1 r1] eqn:E1. cbn [fst snd] in E. destruct r1 as [x|?|?]; cbn [obind] in E; try discriminate.
+      inversion E; subst. constructor; [|eapply IH; eassumption].
+      unfold info_rel, inst_of, ent_prio. cbn [fst snd]. rewrite Ee. repeat split.
+    + destruct (mk_def h (renum c d)) as [h1 r0] eqn:Em. cbn [fst snd] in E. destruct r0 as [p|?|?]; try discriminate.
+      destruct (minst_all h1 (N.succ c) l) as [hc1 r1] eqn:E1. cbn [fst snd] in E. destruct r1 as [x|?|?]; cbn [obind] in E; try discriminate.
+      inversion E; subst. constructor; [|eapply IH; eassumption].
+      pose proof (mk_def_content _ _ _ _ _ Em) as SC.
+      unfold info_rel, inst_of, ent_prio. cbn [fst snd]. rewrite Ee. split; [exact SC|]. split; [reflexivity|]. apply SC.
+    + exfalso. apply (NS es ds); [left; reflexivity | exact Ee].
+Qed.
+
+Section SortRel.
+  Context {A B : Type} (R : A -> B -> Prop) (leA : A -> A -> bool) (leB : B -> B -> bool).
+  Hypothesis le_rel : forall a b a' b', R a b -> R a' b' -> leA a a' = leB b b'.
+  Lemma insert_F2 a b l1 l2 : R a b -> Forall2 R l1 l2 -> Forall2 R (insert leA a l1) (insert leB b l2).
+  Proof.
+    intros Hab F. induction F as [|x y l1 l2 Hxy F IH]; cbn.
+    - constructor; [exact Hab | constructor].
+    - rewrite (le_rel _ _ _ _ Hab Hxy). destruct (leB b y).
+      + constructor; [exact Hab|]. constructor; assumption.
+      + constructor; assumption.
+  Qed.
+  Lemma isort_F2 l1 l2 : Forall2 R l1 l2 -> Forall2 R (isort leA l1) (isort leB l2).
+  Proof. induction 1; cbn; [constructor | apply insert_F2; assumption]. Qed.
+End SortRel.
+
+Lemma F2_map_fst {A B C D} (R : A * C -> B * D -> Prop) (Q : A -> B -> Prop) l1 l2 :
+  (forall x y, R x y -> Q (fst x) (fst y)) -> Forall2 R l1 l2 -> Forall2 Q (map fst l1) (map fst l2).
+Proof. intros H F. induction F; cbn; constructor; auto. Qed.
+
+(* for every table without callables-with-memory: the pipelines that resolve() sums (see
+   Model.Pipeline.resolve) are, one by one and in this order, the entries of the permutation-invariant
+   (priority, identifier) order: the registered object itself, or a fresh pipeline with the content of
+   the callable's / file's definition *)
+Lemma resolve_instances h c t specs l hc infos : no_seq t ->
+  resolve_all tab_nm t specs = Some l -> minst_all h c l = (hc, Ok infos) ->
+  Forall2 inst_of (map fst (isort (info_leb ent_prio) l)) (map fst (isort (info_leb p_prio) infos)).
+Proof.
+  intros NS El Ei.
+  assert (F : Forall2 info_rel l infos).
+  { eapply minst_rel; [|exact Ei]. intros x ds Hx. apply NS. eapply resolve_all_in; eassumption. }
+  apply (F2_map_fst info_rel inst_of); [intros x y Hxy; apply Hxy|].
+  apply isort_F2; [|exact F].
+  intros a b a' b' (_ & S1 & P1) (_ & S2 & P2). unfold info_leb, info_key. rewrite S1, S2, P1, P2. reflexivity.
 Qed.
